@@ -134,7 +134,44 @@ theorem lifecycle_order :
     (Generated.sourceOrder.lookup "Service.Shutdown").map shutdownOrderOk = some true := by
   decide +kernel
 
+/-! ## what the `guarded` and `atomicOnly` policies buy -/
+
+open GoRes.Discipline in
+/-- **a location that is only ever accessed with the mutex held has no data race**, in every execution
+that respects the mutex — whatever the goroutines, however many, in whatever order -/
+theorem guarded_race_free (tr : List Ev) (x : Nat) (hm : MutexOrdered tr) (hg : Guarded tr x) : ¬ Race tr x := by
+  rintro ⟨i, j, ei, ej, hij, hi, hj, hxi, hxj, _, _, hne, hnhb⟩
+  have mi := List.mem_of_getElem? hi
+  have mj := List.mem_of_getElem? hj
+  obtain ⟨a, ha⟩ := Option.isSome_iff_exists.mp (hg ei mi hxi)
+  obtain ⟨b, hb⟩ := Option.isSome_iff_exists.mp (hg ej mj hxj)
+  obtain ⟨hab, hsame⟩ := hm i j ei ej hij hi hj a b ha hb
+  rcases Nat.lt_or_eq_of_le hab with hlt | heq
+  · exact hnhb ⟨ei, ej, hij, hi, hj, Or.inr ⟨a, b, ha, hb, hlt⟩⟩
+  · exact hne (hsame heq)
+
+open GoRes.Discipline in
+/-- a location that is only accessed through `sync/atomic` has no data race -/
+theorem atomic_race_free (tr : List Ev) (x : Nat) (ha : AtomicOnly tr x) : ¬ Race tr x := by
+  rintro ⟨i, j, ei, ej, _, hi, hj, hxi, hxj, _, hna, _, _⟩
+  exact hna ⟨ha ei (List.mem_of_getElem? hi) hxi, ha ej (List.mem_of_getElem? hj) hxj⟩
+
 /-! ## non-vacuity -/
+-- two goroutines, two critical sections on location 7: guarded, mutex-ordered, and indeed ordered
+open GoRes.Discipline in
+example : HB [⟨1, 7, true, false, some 0⟩, ⟨2, 7, false, false, some 1⟩] 0 1 :=
+  ⟨_, _, by decide, rfl, rfl, Or.inr ⟨0, 1, rfl, rfl, by decide⟩⟩
+-- and an unguarded write beside a guarded read by another goroutine is a race
+open GoRes.Discipline in
+example : Race [⟨1, 7, true, false, none⟩, ⟨2, 7, false, false, some 0⟩] 7 := by
+  refine ⟨0, 1, _, _, by decide, rfl, rfl, rfl, rfl, Or.inl rfl, by decide, by decide, ?_⟩
+  rintro ⟨ei, ej, _, hi, hj, h⟩
+  simp only [List.getElem?_cons_zero, List.getElem?_cons_succ, Option.some.injEq] at hi hj
+  subst hi; subst hj
+  rcases h with h | ⟨a, b, ha, _, _⟩
+  · exact absurd h (by decide)
+  · cases ha
+
 open GoRes.Discipline in
 example : (Generated.accesses.filter (fun a => Acc.lock a == "L")).length ≥ 10 ∧
     accOk ("Service", "rwork", "Service.serve", "w", "U") = false ∧
